@@ -112,6 +112,27 @@ def run(tape, ctx):
         probes.hit("fit-raised")
         return {"desc": desc, "probes": probes, "nontrivial": False, "known_outcomes": [f"fit-raised:{type(e).__name__}"]}
 
+    # Known finding (see known_findings.json): under a euclidean cost, a support point so far from every
+    # reference vector that exp(-cost) underflows makes the batched Sinkhorn iteration hit its shared non-finite
+    # `break` at once, for every item of the chunk.  Such cases get their own signature suffix.
+    qual = ""
+    if isinstance(case, A.WassersteinCase) and case.which in ("W-sinkhorn", "Sinkhorn") and hasattr(est, "reference_vectors_"):
+        try:
+            ref = np.asarray(est.reference_vectors_, dtype=np.float64)
+            vec = np.asarray(case.vectors, dtype=np.float64)
+            if case.metric == "cosine":
+                vn = vec / np.linalg.norm(vec, axis=1, keepdims=True)
+                rn = ref / np.linalg.norm(ref, axis=1, keepdims=True)
+                cost = 1.0 - vn @ rn.T
+            else:
+                cost = np.sqrt(((vec[:, None, :] - ref[None, :, :]) ** 2).sum(axis=2))
+            if np.any(np.all(np.exp(-cost) == 0.0, axis=1)):
+                qual = "|sinkhorn-kernel-underflow"
+                probes.hit("sinkhorn-kernel-underflow-case")
+        except Exception:
+            pass
+    desc["sinkhorn_kernel_underflow"] = bool(qual)
+
     n = len(case.pool)
     memo = {}          # item -> ("row", row, where) | ("exc", ExcName, where)
     batches = []
@@ -230,7 +251,7 @@ def run(tape, ctx):
                     shape_note = f" (row width {row[0]} vs {val[0]}: the output width depends on the batch)"
                     raise Violation(f"C12|{tag}|row-width-depends-on-batch",
                                     f"item {it}: width {row[0]} in batch {ids} (position {pos}) but width {val[0]} at {where}", desc)
-                raise Violation(f"C12|{tag}|row-depends-on-batch",
+                raise Violation(f"C12|{tag}|row-depends-on-batch{qual}",
                                 f"item {it} at position {pos} of batch {ids} (op {opi}, {k}) differs from its row at {where}{shape_note}: "
                                 f"{A.describe_diff(_rv(row), _rv(val))}; knobs so far {[o for o in ops if o['op'] == 'set_knob']}", desc)
             probes.hit("row-compared")
